@@ -65,6 +65,8 @@ impl ContinuityStore {
     //@@ end
     //@@ fn crates/ripd/src/continuities.rs ContinuityStore::create_continuity
     //@@ end
+    //@@ fn crates/ripd/src/continuities.rs ContinuityStore::create_continuity_locked
+    //@@ end
 }
 fn new_index() -> Mutex<ContinuityIndexV1> { Mutex::new(ContinuityIndexV1 { workspaces: HashMap::new(), continuities: HashMap::new() }) }
 const T: &str = "t";
